@@ -76,7 +76,11 @@ func (e *Env) flushShard() {
 	b.WriteString("\nLocal Open Scope string_scope.\nDefinition cases := [\n")
 	b.WriteString(strings.Join(e.shardBuf, ";\n"))
 	b.WriteString("\n].\n")
-	b.WriteString("Definition M := Eval vm_compute in mism " + shardCheck[e.shardKind] + " cases 0.\nPrint M.\n")
+	if shardCheck[e.shardKind] == "RENDER" {
+		b.WriteString("Definition MU := Eval vm_compute in classify (check_render names) cases 0.\nDefinition M := Eval vm_compute in fst MU.\nDefinition U := Eval vm_compute in snd MU.\nPrint M.\nPrint U.\n")
+	} else {
+		b.WriteString("Definition M := Eval vm_compute in mism " + shardCheck[e.shardKind] + " cases 0.\nPrint M.\n")
+	}
 	if err := os.WriteFile(filepath.Join(e.OutDir, name), []byte(b.String()), 0o644); err != nil {
 		panic(err)
 	}
